@@ -181,4 +181,56 @@ def run(facts, tier, ctx):
                                 "from_size(0) computes 0 - 1" % (pname, iv or "none")), dict(sample, verdict="FAIL"))
     rz.require_floor(1, "constructor calls of BlockSizeSpec::from_size")
     out.append(rz)
+    # ------------------------------------------------------------ TWOC-RANGE
+    # a value later written as a W-bit two's-complement field must lie in [-2^(W-1), 2^(W-1)-1]: wherever a constructor or
+    # a Verify impl checks `x >= -(1 << (W-1))`, the matching upper bound must be `x <= (1 << (W-1)) - 1` (or `< 1 << (W-1)`).
+    from . import lib_effect as E
+    tr = RuleResult("RANGE/twos-complement", "sample-range checks are the exact two's-complement range of the width the value "
+                    "is written with")
+    for b in ctors + vimpls:
+        ectx = E.Ctx(facts)
+        ectx.open_loops = True
+        ectx.log_calls = r"verify_macro_impl"
+        ectx.noinline = [r"from_parts$", r"Verify>::verify$"]
+        it = E.Interp(ectx, b)
+        try:
+            it.run()
+        except E.Undecided:
+            continue                # bodies without such checks or with unsupported shapes are covered by PANICSITE only
+        lows = {}
+        ups = {}
+        for c in ectx.calls:
+            cond = E.strip_casts(c[1][0])
+            if not (isinstance(cond, tuple) and cond[0] == "bin" and cond[1] in ("Ge", "Le", "Lt", "Gt")):
+                continue
+            subj = E.canon(cond[2])
+            bound = E.strip_casts(cond[3])
+            if cond[1] == "Ge" and bound[0] == "un" and bound[1] == "Neg" and "Shl" in E.canon(bound[2]):
+                lows[subj] = (bound[2], c[2])
+            elif cond[1] in ("Le", "Lt") and "Shl" in E.canon(bound):
+                ups.setdefault(subj, []).append((cond[1], bound, c[2]))
+        n = E.Normalizer(facts)
+        for subj, (P, site) in sorted(lows.items()):
+            cands = ups.get(subj, [])
+            good = False
+            desc = "no upper bound"
+            try:
+                pn = n.nf(P)
+                for op, ub, usite in cands:
+                    un = n.nf(ub)
+                    want = E.nf_add(pn, E.nf_const(-1)) if op == "Le" else pn
+                    desc = "%s %s" % ("<=" if op == "Le" else "<", E.show(ub))
+                    if E.nf_eq(un, want):
+                        good = True
+            except E.Undecided:
+                pass
+            if good:
+                tr.ok({"function": b.id, "subject": subj, "lower": ">= -(%s)" % E.show(P), "upper": desc, "verdict": "ok"})
+            else:
+                tr.fail(Finding("RANGE/twos-complement", b.id, "asymmetric-range:%s" % subj, 0, site,
+                                "%s accepts %s >= -(%s) but bounds it above by `%s`; a W-bit two's-complement field holds at "
+                                "most (1 << (W-1)) - 1, so the largest accepted value is serialised as a different number"
+                                % (b.id, subj, E.show(P), desc)))
+    tr.require_floor(8, "two's-complement range checks")
+    out.append(tr)
     return out
